@@ -5,10 +5,14 @@ prop("C14", "exploration",
      "probe is check-and-mark or check-only; plus every check-and-mark history of length<=3 over a 40-value edge alphabet "
      "followed by re-probes (exhaustive sub-space). Oracle: set+max model from the statement, compared at every step. "
      "Non-trivial = history that contains a probe of an already accepted counter AND a forward jump into another 64-block "
-     "(random part), or any enumerated history; distinct by hash of the whole history.",
+     "(random part), or any enumerated history; distinct by hash of the whole history. Session unit: the same generated histories "
+     "through the real SessionState.readPacketLocked - every probe is a sealed packet with that counter, genuine (check-and-mark) or "
+     "with one ciphertext bit flipped (fails authentication); it is returned iff genuine and fresh by the reference filter over the "
+     "counters of ACCEPTED packets only.",
      ["counters stay below 2^63 as the property states", "Mark is only called after a successful Check (as readPacketLocked does)"],
      [dict(name="rapid", pkg="transport", run="^TestVerifC14Random$", shards=dict(quick=8, thorough=16), thorough_scale=100),
-      dict(name="enum", pkg="transport", run="^TestVerifC14Exhaustive$", shards=dict(quick=4, thorough=4))],
+      dict(name="enum", pkg="transport", run="^TestVerifC14Exhaustive$", shards=dict(quick=4, thorough=4)),
+      dict(name="session", pkg="transport", run="^TestVerifC14Session$", shards=dict(quick=8, thorough=16), thorough_scale=50)],
      exhaustive_core=True,
      text="Model-based search: the real SlidingWindow is compared step by step with a set+max model over generated histories "
           "(edge-biased, up to 3000 probes) and over an exhaustively enumerated short-history sub-space. Absence is not shown; "
